@@ -28,7 +28,7 @@ NPROC = 12
 HEADER = ("From Coq Require Import ZArith List Bool.\nImport ListNotations.\n"
           "From MemSafe Require Import Model ModelDiv ModelCanon.\nOpen Scope Z_scope.\n")
 
-CASEFN = {"mem": "mem_case", "writes": "writes_case", "lift": "lift_case", "simplify": "simplify_case",
+CASEFN = {"mem": "mem_case", "exec": "exec_case", "writes": "writes_case", "lift": "lift_case", "simplify": "simplify_case",
           "div_cir": "div_cir_case", "div_e": "div_e_case"}
 
 
@@ -315,7 +315,7 @@ def run(ck: common.Check):
     model_ok = (COQ / ENGINE / "ModelCanon.vo").exists() and ok_gen
 
     # ---- generated + scheduled procedures, observed on the real backend
-    n_prog = ck.n(90, 1500)
+    n_prog = ck.n(90, 600)
     recs = run_workers(ck, n_prog, n_sched=2, n_inputs=ck.n(4, 6))
     ck.log("generation + observation of the real backend: %.1fs" % (time.time() - t0))
     st = {}
@@ -360,7 +360,7 @@ def run(ck: common.Check):
 
     ck.log("correspondence done: %.1fs" % (time.time() - t0))
     # ---- 3. failing-input search against the real generated C (cheap enough for quick)
-    san_search(ck, okrecs, ck.n(48, 700), suspects)
+    san_search(ck, okrecs, ck.n(48, 260), suspects)
     ck.log("sanitizer search done: %.1fs" % (time.time() - t0))
 
     # ---- 4. evidence
@@ -405,6 +405,7 @@ def correspondence(ck, okrecs):
             meta = {"tag": r["tag"], "proc": p["name"], "sched": r.get("sched", [])}
             cases.append(("mem-analysis", "mem", p["body"], p["real_after"], dict(meta, feat=p["feat"])))
             cases.append(("const", "const", (p["buf_args"], p["body_after"]), p, meta))
+            cases.append(("exec-certificate", "exec", p["body_after"], None, dict(meta, feat=p["feat"])))
     # ---- division lowering
     seen = set()
     budget = {"lift": ck.n(150, 1500), "simplify": ck.n(250, 2500), "div_cir": ck.n(250, 2500), "div_e": ck.n(200, 2000)}
@@ -418,7 +419,7 @@ def correspondence(ck, okrecs):
             cases.append((dv["kind"].replace("_", "-"), dv["kind"], dv["term"], dv["real"],
                           {"tag": r["tag"], "text": dv.get("text"), "lit": dv["lit"]}))
     # ---- synthetic skeletons
-    for s in run_synth(ck, ck.n(360, 4000)):
+    for s in run_synth(ck, ck.n(360, 2500)):
         cases.append(("mem-synthetic", "mem", s["body"], s["mem_real"], {"tag": s["tag"], "malformed": s["malformed"], "err": s.get("mem_err")}))
         cases.append(("writes-synthetic", "writes", s["body"], s["writes_real"], {"tag": s["tag"], "malformed": s["malformed"]}))
     terms = []
@@ -432,10 +433,7 @@ def correspondence(ck, okrecs):
     wfw = {"true": 0, "false": 0, "false_samples": []}
     suspects = set()
     diverged_before = lambda st: ck.stream(st)["diverge"]
-    nonlit = 0
     for (stream, kind, term, real, meta), m in zip(cases, model):
-        if suspects is not None:
-            pass
         ndiv = diverged_before(stream)
         try:
             compare_one(ck, stream, kind, term, real, meta, m, wf, wfw)
@@ -446,8 +444,7 @@ def correspondence(ck, okrecs):
 
 
 def compare_one(ck, stream, kind, term, real, meta, m, wf, wfw):
-    nonlit = 0
-    if True:
+    if True:  # (kept as a block: one case = one comparison)
         if m is None:
             ck.case(stream, term, nontrivial=False)
             ck.corr_diverge(stream, {"case": meta, "why": "model evaluation failed"})
@@ -472,6 +469,13 @@ def compare_one(ck, stream, kind, term, real, meta, m, wf, wfw):
             else:
                 ok = m == [0] + real
             (ck.corr_agree(stream) if ok else ck.corr_diverge(stream, {"case": meta, "model": m, "real": real}))
+        elif kind == "exec":
+            # the proved-sound checker (C08_exec_certificate) on the REAL MemoryAnalysis output
+            f = meta.get("feat") or {}
+            ck.case(stream, term, nontrivial=bool(f.get("alloc")), tag="allocs=%d" % min(f.get("alloc", 0), 4),
+                    sample={"case": {k: v for k, v in meta.items() if k != "feat"}, "exec_safe_b": m})
+            (ck.corr_agree(stream) if m == [1] else ck.corr_diverge(stream, {"case": meta, "exec_safe_b": m,
+                                                                              "why": "checker rejects the real MemoryAnalysis output"}))
         elif kind == "writes":
             ck.case(stream, term, nontrivial=bool(real), tag="n=%d" % min(len(real or []), 5))
             ok = real is not None and m == [0] + real
